@@ -1113,7 +1113,9 @@ def _run_case(case, rec, checks, tmpdir, opened):
                             # formula (atan2 and triple product here, arccos and rejection in the
                             # kernel), i.e. a few ulp amplified by the cone width (<1e-9 relative)
                             err = float(np.max(np.abs(got_v - want))) if want.size else 0.0
-                            require(err <= 1e-7 * scale + 1e-300,
+                            # (+1e-30 V: signals of ~1e-35 V are rounding noise of the models'
+                            # far tails, relative agreement means nothing there)
+                            require(err <= 1e-7 * scale + 1e-30,
                                     "%s: signal differs from receive(propagate(model(psi=%.9f rad, "
                                     "distance=%r))) recomputed with fresh components: max |diff| = %r, "
                                     "max |expected| = %r, max |got| = %r (tracer %s, model %s, ai %r)",
